@@ -13,6 +13,7 @@ mod c12;
 mod c14;
 mod c15;
 mod c16;
+mod c20;
 mod ctx;
 mod docs;
 mod obs;
@@ -45,6 +46,7 @@ fn registry(id: &str) -> Option<Box<dyn Check>> {
         "C14" => Some(Box::new(c14::C14)),
         "C15" => Some(Box::new(c15::C15)),
         "C16" => Some(Box::new(c16::C16)),
+        "C20" => Some(Box::new(c20::C20)),
         _ => None,
     }
 }
